@@ -244,6 +244,12 @@ size_t varintFloatEncode(uint8_t *output, const double *values,
             } else {
                 /* Reduced precision: truncate from 53 bits to target */
                 mantissas[i] = truncateMantissa(mantissas[i], 53, mant_bits);
+                if (mantissas[i] >> mant_bits) {
+                    /* Rounding carried out of the mantissa (1.111...b rounds up
+                     * to 10.0b): renormalise to 1.0b x 2^(exponent + 1) */
+                    mantissas[i] >>= 1;
+                    exponents[i]++;
+                }
             }
         }
     }
